@@ -556,6 +556,38 @@ def harness_for(item):
             for nm, W, nsamp in (("left", WL, ["b", "sigA"]), ("right", WR, ["sigB"])):
                 m = W.model()
                 env.holds(f"merge[{join}]:{nm}-model-samples", sorted(m.config.samples) == nsamp, key=f"merge:{join}:no-mutation")
+        # same-named sample of different content on both sides of the shared channel: which definition wins is not settled by
+        # the statement, but an accepted result must be a workspace that has a likelihood (one definition per sample name, every
+        # private sample kept, model constructible), and the inputs stay untouched
+        wl2 = _ws(env, prefix="L2_", meas="measL", chans=[channel("SR", sample("sig", 2, normfactor()), sample("bkg", 2, normsys("xs")))])
+        wr2 = _ws(env, prefix="R2_", meas="measR", chans=[channel("SR", sample("bkg", 2, normsys("xs")), sample("fakes", 2, normfactor("nf")))])
+        wr2["observations"][0] = copy.deepcopy(wl2["observations"][0])
+        for join in ("outer", "left outer", "right outer"):
+            bl, br = copy.deepcopy(wl2), copy.deepcopy(wr2)
+            WL, WR = pyhf.Workspace(wl2), pyhf.Workspace(wr2)
+            try:
+                WC = pyhf.Workspace.combine(WL, WR, join=join, merge_channels=True)
+            except pyhf.exceptions.InvalidWorkspaceOperation:
+                env.holds(f"merge-clash[{join}]:refused", True, key=f"merge-clash:{join}")
+                continue
+            except Exception as e:  # noqa: BLE001
+                env.fail(f"merge-clash[{join}]", f"{type(e).__name__}: {str(e)[:120]}", key=f"merge-clash:{join}")
+                continue
+            env.holds(f"merge-clash[{join}]:inputs-untouched", _same_structure(bl, wl2) and _same_structure(br, wr2), key=f"merge-clash:{join}")
+            sr_ = [c for c in WC["channels"] if c["name"] == "SR"]
+            env.holds(f"merge-clash[{join}]:one-merged-channel", len(sr_) == 1, key=f"merge-clash:{join}")
+            if len(sr_) == 1:
+                names = sorted(s["name"] for s in sr_[0]["samples"])
+                env.holds(f"merge-clash[{join}]:one-definition-per-sample", len(names) == len(set(names)), key=f"merge-clash:{join}")
+                env.holds(f"merge-clash[{join}]:private-samples-kept", {"sig", "fakes"} <= set(names), key=f"merge-clash:{join}")
+                for s in sr_[0]["samples"]:
+                    if s["name"] == "bkg":
+                        env.holds(f"merge-clash[{join}]:bkg-is-an-input-definition", _same_structure(s, wl2["channels"][0]["samples"][1]) or _same_structure(s, wr2["channels"][0]["samples"][0]), key=f"merge-clash:{join}")
+            try:
+                m = WC.model(measurement_name=WC.measurement_names[0])
+                env.holds(f"merge-clash[{join}]:model-builds", len(set(m.config.samples)) == len(m.config.samples), key=f"merge-clash:{join}")
+            except Exception as e:  # noqa: BLE001
+                env.fail(f"merge-clash[{join}]:model-builds", f"{type(e).__name__}: {str(e)[:120]}", key=f"merge-clash:{join}")
 
     return {"combine": combine, "refuse": refuse, "prune": prune, "rename": rename, "sorted": sorted_, "merge": merge, "main-measurement": main_measurement}[kind]
 
